@@ -466,6 +466,20 @@ def directed():
     for w, cuts in ((long_ok, []), (long_ok, [65537]), (long_ok, [65536, 65538]), (long_bad, []), (long_bad, [65538]),
                     (long_bad, [65537, 65539])):
         out.append({"kind": "req", "reads": [h(x) for x in K.cut(w, cuts)], "close": False})
+    # the same limit for header lines (parseLeader), chunk-size lines and trailer lines inside messages: MAX-1, MAX, MAX+1
+    # bytes, whole and cut before the CR, between CR and LF, after the LF
+    MAXL = 65536
+    for L in (MAXL - 1, MAXL, MAXL + 1):
+        hline = b"X-Long: " + b"v" * (L - 8)
+        w = b"GET / HTTP/1.1\r\n" + hline + b"\r\n\r\nGET /2 HTTP/1.1\r\n\r\n"
+        for cuts in ([], [16 + L], [16 + L + 1], [16 + L + 2]):
+            out.append({"kind": "req", "reads": [h(x) for x in K.cut(w, cuts)], "close": False})
+        pre = b"HTTP/1.1 200 OK\r\nTransfer-Encoding: chunked\r\n\r\n"
+        w = pre + b"5;" + b"x" * (L - 2) + b"\r\nhello\r\n0\r\nT: " + b"t" * (L - 3) + b"\r\n\r\n"
+        k1 = len(pre) + L + 1
+        k2 = k1 + 1 + 7 + 3 + L + 1
+        for cuts in ([], [k1], [k2], [k1, k2]):
+            out.append({"kind": "resp", "reads": [h(x) for x in K.cut(w, cuts)], "close": False})
     out.append({"kind": "req", "reads": [], "close": True})
     out.append({"kind": "resp", "reads": [h(b"")], "close": True})
     # armed parser polled idle, close() during the idle time, then a message in fragments (seeded C13-8 = revert of 0a30e14)
